@@ -16,5 +16,6 @@ func controlsC09() []Control {
 		{Name: "ready signal carries index zero", Expect: "R2", Mutate: replaceIn("(*openGameManager).readyGroupReady", "m.rg.Ready(int64(participant.Index))", "m.rg.Ready(0)", 0)},
 		{Name: "game count recorded after Start", Expect: "R1", Mutate: replaceIn("(*openGameManager).Setup", "\tm.state.GameCount = gameCount\n", "\tdefer func() { m.state.GameCount = gameCount }()\n", 0)},
 		{Name: "Setup returns early for an empty participant set", Expect: "R1", Mutate: replaceIn("(*openGameManager).Setup", "\tm.rg.Stop()\n", "\tif len(participants) == 0 {\n\t\treturn\n\t}\n\tm.rg.Stop()\n", 0)},
+		{Name: "reset keeps the previous participants and only clears their flags", Expect: "R1", Mutate: replaceIn("(*openGameManager).readyGroupResetParticipants", "m.state.Participants = map[string]*OpenGameParticipant{}", "for id := range m.state.Participants {\n\t\tm.state.Participants[id].IsReady = false\n\t}", 0)},
 	}
 }
